@@ -50,12 +50,25 @@ reads the rest, proved from the product measure):
     (`snapping_grid_pmf`), and in exact arithmetic the clamp / round / rescale pipeline keeps the Laplace guarantee:
     pure ε_eff-DP with ε_eff ≤ ε (`snapping_release_dp`; not Mironov's floating-point theorem).
 
+PROVED in §12 (was listed as not proved): an EXPLICIT bound on the probability of the model's fuel-exhaustion event `abort`
+of `cks_loop_law_full` for the model's FIXED inner fuels 64 / 4096 / 4096: the coin loop with fuel `F` fails to return with
+probability `γ^F/F!` (γ ≤ 1) resp. at most `e^{e−F}` (every γ ≥ 0, `cks_coin_fuel_bound`), the geometric count with cap 4096
+with probability at most `4096·τ^64/64! + e^{−4096τ}` (`cks_geometric_cap_bound`), a pass with at most the sum, and by the
+renewal fixed point `P[abort] ≤ cksAbortBound τ σ² = (4096·τ^64/64! + e^{−4096τ} + e^{e−4096}) / ((1−e^{−τ})·½·e^{−τ²σ²/2})`
+(`cks_abort_bound`), hence `dG(y) − B ≤ P[model returns y] ≤ dG(y)` (`cks_loop_law_quantitative`).  The bound is not small
+for large scales (`e^{−4096τ}`, `τ = 1/(1+⌊scale⌋)`: the cap on the geometric count IS reached with that probability);
+for scale 1 it is below `10^{-6}` (example).
+
+PROVED in §13 (was listed as not proved): the law of the model's `snapUniform` over FAIR BITS (52 mantissa bits and `W` 32-bit
+words, uniform counting measure on the bit strings) is the push-forward of the continuous uniform on [0,1) under round-down
+to the floating-point grid (53-bit significand): every double `v` is returned with probability `unif01 {U | 2^(−32W) ≤ U ∧
+flDown U = v}` (`snap_uniform_law`), and the finite cap on the exponent — all `32W` word bits zero, the model returns
+`none` — has probability `2^(−32W) = unif01 {U | U < 2^(−32W)}`; closed form of the model on a bit string
+(`snap_uniform_closed_form`), `flDown` is the round-down to the grid (`snap_round_down_grid`).
+
 NOT proved here (validated statistically by the harness, listed as `UNPROVED` in the evidence): that a normalised
-Gaussian vector is uniform on the sphere; an explicit bound on the probability of the model's fuel-exhaustion event
-`abort` in `cks_loop_law_full` for the model's FIXED inner fuels 64 / 4096 / 4096 (it is not small for large scales: the
-cap 4096 on the geometric count is reached with probability about `e^{−4096·τ}`, `τ ≈ 1/scale`; the unbounded loop has no such
-event, `cks_unbounded_loop_law`, and the event vanishes as the fuels grow, `cks_growing_fuel_law`); that the law of the model's `snapUniform` (a dyadic double) is the round-down of a
-continuous uniform — §11 idealises it as `unif01` — and the floating-point evaluation of `log`; and Bingham's rejection
+Gaussian vector is uniform on the sphere; the floating-point evaluation of `log` in Snapping (§11 takes `log` of a `unif01` draw; §13 shows the model's
+`snapUniform` is the round-down of such a draw, the composition of the two is not analysed); and Bingham's rejection
 sampler (open finding, §7).
 -/
 import DPL.Proofs.SamplersLaws
@@ -70,6 +83,9 @@ import DPL.Proofs.SamplersStreamBatchLaw
 import DPL.Proofs.SamplersSnapRound
 import DPL.Proofs.ContinuousBoundedDomainDP
 import DPL.Proofs.SamplersStreamBatchDP
+import DPL.Proofs.SamplersStreamCKSAbort
+import DPL.Proofs.SamplersSnapUniformLaw
+import Mathlib.Analysis.Complex.ExponentialBounds
 
 namespace DPL.C03
 open DPL DPL.Smp MeasureTheory Set
@@ -1095,5 +1111,200 @@ theorem snapping_grid_pmf (lam c s : ℝ) (hl : 0 < lam) (k : ℤ) :
       (Cont.lapMeasure s c).map (fun v => truncate (-B) B (snapRound v lam)) {lam * (k : ℝ)}
         = Cont.lapMeasure s c (Ico (((k : ℝ) - 1 / 2) * lam) (((k : ℝ) + 1 / 2) * lam)) :=
   ⟨SmpS.snapRound_pmf lam c s hl k, fun B h1 h2 => SmpS.snapRound_clamped_pmf lam c s B hl k h1 h2⟩
+
+/-! ### 12. an explicit bound on the fuel-exhaustion event of the model's GaussianDiscrete loop
+
+`SmpS.bernM F γ`, `SmpS.geomM fb τ F n`, `SmpS.loopM fb fg fa τ σ² n` are the model's `bernNegExp F γ`, `geomCount` (coin fuel
+`fb`) and `cksLoop` (fuels `fb fg fa`; the model is 64 / 4096 / 4096, `cks_model_is_instance`) read as stream samplers
+(`none ↦ error`); `SmpS.massOf f` is the probability that `f` returns.  All three have laws over the i.i.d. uniform stream
+(their paths are the paths of the unbounded loops that stay within the fuel), so the renewal argument of §9 applies to the
+fuelled model itself: `M_{n+1} = A + R·M_n`, `A + R ≥ 1 − a`, `1 − R ≥ c`, hence `P[abort] = 1 − sup_n M_n ≤ a / c`. -/
+
+/-- the bound: `(4096·τ^64/64! + e^{−4096τ} + e^{e−4096}) / ((1−e^{−τ})·½·e^{−τ²σ²/2})` — numerator: coin fuel of the geometric
+loop (at most 4096 coins), cap on the geometric count, coin fuel of the acceptance test; denominator: the probability
+that one pass of the unbounded loop accepts the output 0 -/
+noncomputable def cksAbortBound (tau sigma2 : ℝ) : ℝ :=
+  (4096 * (tau ^ 64 / (Nat.factorial 64 : ℝ)) + Real.exp (-(tau * 4096)) + Real.exp (Real.exp 1 - 4096))
+    / ((1 - Real.exp (-tau)) * (1 / 2) * Real.exp (-(tau ^ 2 * sigma2 / 2)))
+
+theorem cksAbortBound_eq (tau sigma2 : ℝ) : cksAbortBound tau sigma2 = SmpS.abortBound 64 4096 4096 tau sigma2 := by
+  unfold cksAbortBound SmpS.abortBound
+  simp only [Nat.cast_ofNat]
+
+open DPL.Discrete in
+/-- **the coin loops run out of fuel with explicitly small probability**: over the i.i.d. uniform stream the model's
+`bernoulli_neg_exp(γ)` with fuel `F` returns (0 or 1) with probability at least `1 − γ^F/F!` when `γ ≤ 1` (exactly: the inner
+loop needs more than `F` uniforms with probability `γ^F/F!`), and at least `1 − e^{e−F}` for EVERY `γ ≥ 0` (recursion for
+`γ > 1` included: each round continues with probability at most `e^{−1}` and its inner fuel shrinks by one) -/
+theorem cks_coin_fuel_bound (F : ℕ) (gamma : ℝ) (h0 : 0 ≤ gamma) :
+    let f : List ℝ → Except DErr (Bool × List ℝ) := fun l => SmpS.ofOpt (bernNegExp F gamma l)
+    (gamma ≤ 1 → 1 ≤ streamμ (Ret f true) + streamμ (Ret f false)
+        + ENNReal.ofReal (gamma ^ F / (Nat.factorial F : ℝ))) ∧
+    1 ≤ streamμ (Ret f true) + streamμ (Ret f false) + ENNReal.ofReal (Real.exp (Real.exp 1 - F)) := by
+  intro f
+  have hf : f = SmpS.bernM F gamma := rfl
+  rw [hf, ← SmpS.massOf_bool (SmpS.bernM_isLaw F gamma h0)]
+  refine ⟨fun h1 => SmpS.bernM_deficit_le_one F gamma h0 h1, ?_⟩
+  exact (SmpS.bernM_deficit F gamma h0).trans
+    (add_le_add le_rfl (ENNReal.ofReal_le_ofReal (SmpS.coinDef_le F)))
+
+/-- non-vacuity of `cks_coin_fuel_bound`: the bound for the model's coin of the geometric loop at τ = 1/2 -/
+example : (1 / 2 : ℝ) ^ 64 / (Nat.factorial 64 : ℝ) ≤ 1 / 2 ^ 64 := by
+  have : (1 : ℝ) ≤ (Nat.factorial 64 : ℝ) := by exact_mod_cast Nat.one_le_iff_ne_zero.mpr (Nat.factorial_ne_zero 64)
+  rw [one_div_pow]
+  exact div_le_self (by positivity) this
+
+open DPL.Discrete in
+/-- **the geometric count with its cap**: the model's `geom_x` loop (coin fuel 64, at most 4096 rounds) returns with
+probability at least `1 − (4096·τ^64/64! + e^{−4096τ})`: a coin runs out of fuel (≤ τ^64/64! each) or all 4096 coins
+come up 1 (≤ e^{−4096τ}) -/
+theorem cks_geometric_cap_bound (tau : ℝ) (h0 : 0 ≤ tau) (h1 : tau ≤ 1) :
+    let f : List ℝ → Except DErr (ℕ × List ℝ) := fun l => SmpS.ofOpt (geomCount tau 4096 0 l)
+    1 ≤ ∑' k : ℕ, streamμ (Ret f k)
+        + ENNReal.ofReal (4096 * (tau ^ 64 / (Nat.factorial 64 : ℝ)) + Real.exp (-(tau * 4096))) := by
+  intro f
+  have hf : f = SmpS.geomM 64 tau 4096 0 := by
+    funext l; show SmpS.ofOpt (geomCount tau 4096 0 l) = SmpS.ofOpt (SmpS.geomCountG 64 tau 4096 0 l)
+    rw [SmpS.geomCountG_model]
+  have hδ : 0 ≤ tau ^ 64 / (Nat.factorial 64 : ℝ) := by positivity
+  rw [hf, ← SmpS.massOf_eq (SmpS.geomM_isLaw 64 tau h0 4096 0)]
+  refine (SmpS.geomM_deficit 64 tau _ h0 hδ (SmpS.bernM_deficit_le_one 64 tau h0 h1) 4096 0).trans
+    (add_le_add le_rfl (ENNReal.ofReal_le_ofReal ?_))
+  have := SmpS.geomDef_le _ tau hδ h0 4096
+  simpa only [Nat.cast_ofNat] using this
+
+/-- **explicit bound on the fuel-exhaustion event of `cks_loop_law_full`** (the model's fixed fuels 64 / 4096 / 4096): the
+probability that the model never returns, however long the prefix of the stream and however large its outer fuel, is
+at most `cksAbortBound τ σ²` -/
+theorem cks_abort_bound (scale : ℝ) (hscale : 0 < scale) :
+    let μ := Measure.infinitePi (fun _ : ℕ => unif01)
+    let run := fun (ω : ℕ → ℝ) (N fuel : ℕ) => cksLoop (cksTau scale) (cksSigma2 scale) fuel ((List.range N).map ω)
+    let abort := {ω : ℕ → ℝ | ∀ N fuel, run ω N fuel = none}
+    μ abort ≤ ENNReal.ofReal (cksAbortBound (cksTau scale) (cksSigma2 scale)) := by
+  obtain ⟨ht, ht1, hs⟩ := cks_params_pos scale hscale
+  have h := SmpS.cks_abort_le 64 4096 4096 (cksTau scale) (cksSigma2 scale) ht ht1 hs
+  rw [← SmpS.abortMG_model, ← cksAbortBound_eq] at h
+  exact h
+
+/-- non-vacuity of `cks_abort_bound` / `cks_loop_law_quantitative`: at `scale = 1` (τ = 1/2, σ² = 1) the hypotheses hold and
+the bound is below `10^{-6}` (it is in fact about `e^{−2048}/0.17`; the estimate here is crude) -/
+example : (0 : ℝ) < 1 ∧ cksTau (1 : ℝ) = 1 / 2 ∧ cksSigma2 (1 : ℝ) = 1 ∧ cksAbortBound (1 / 2) 1 < 1 / 1000000 := by
+  refine ⟨one_pos, ?_, ?_, ?_⟩
+  · simp only [cksTau, transc_floor, Int.floor_one]; norm_num
+  · simp only [cksSigma2, transc_pow]; norm_num
+  have he : (2.7 : ℝ) < Real.exp 1 := by have := Real.exp_one_gt_d9; linarith
+  have he' : Real.exp 1 < 3 := by have := Real.exp_one_lt_d9; linarith
+  have h17 : (2.7 : ℝ) ^ 17 < Real.exp 17 := by
+    have : Real.exp 17 = Real.exp 1 ^ 17 := by rw [← Real.exp_nat_mul]; norm_num
+    rw [this]; exact pow_lt_pow_left₀ he (by norm_num) (by norm_num)
+  have hm17 : Real.exp (-17) < 1 / (2.7 : ℝ) ^ 17 := by
+    rw [Real.exp_neg, ← one_div]
+    exact one_div_lt_one_div_of_lt (by positivity) h17
+  have ha : Real.exp (-((1 / 2 : ℝ) * 4096)) ≤ Real.exp (-17) := Real.exp_le_exp.mpr (by norm_num)
+  have hb : Real.exp (Real.exp 1 - 4096) ≤ Real.exp (-17) := Real.exp_le_exp.mpr (by linarith)
+  have hc : (4096 : ℝ) * ((1 / 2) ^ 64 / (Nat.factorial 64 : ℝ)) ≤ 4096 / 2 ^ 64 := by
+    have hf : (1 : ℝ) ≤ (Nat.factorial 64 : ℝ) := by
+      exact_mod_cast Nat.one_le_iff_ne_zero.mpr (Nat.factorial_ne_zero 64)
+    have : ((1 / 2 : ℝ)) ^ 64 / (Nat.factorial 64 : ℝ) ≤ (1 / 2) ^ 64 := div_le_self (by positivity) hf
+    calc (4096 : ℝ) * ((1 / 2) ^ 64 / (Nat.factorial 64 : ℝ)) ≤ 4096 * (1 / 2) ^ 64 := by gcongr
+      _ = 4096 / 2 ^ 64 := by rw [one_div_pow]; ring
+  have hd1 : Real.exp (-(1 / 2 : ℝ)) ≤ 2 / 3 := by
+    have h := Real.add_one_le_exp (1 / 2 : ℝ)
+    rw [Real.exp_neg, inv_le_comm₀ (Real.exp_pos _) (by norm_num)]
+    linarith
+  have hd2 : (7 / 8 : ℝ) ≤ Real.exp (-((1 / 2 : ℝ) ^ 2 * 1 / 2)) := by
+    have h := Real.add_one_le_exp (-((1 / 2 : ℝ) ^ 2 * 1 / 2))
+    linarith
+  have hden : (7 / 48 : ℝ) ≤ (1 - Real.exp (-(1 / 2 : ℝ))) * (1 / 2) * Real.exp (-((1 / 2 : ℝ) ^ 2 * 1 / 2)) := by
+    have h3 : (1 / 3 : ℝ) ≤ 1 - Real.exp (-(1 / 2 : ℝ)) := by linarith
+    calc (7 / 48 : ℝ) = 1 / 3 * (1 / 2) * (7 / 8) := by norm_num
+      _ ≤ _ := by gcongr
+  unfold cksAbortBound
+  rw [div_lt_iff₀ (by linarith)]
+  have hnum : (4096 : ℝ) / 2 ^ 64 + 1 / (2.7 : ℝ) ^ 17 + 1 / (2.7 : ℝ) ^ 17 < 1 / 1000000 * (7 / 48) := by norm_num
+  calc _ ≤ (4096 : ℝ) / 2 ^ 64 + Real.exp (-17) + Real.exp (-17) := by linarith
+    _ < 1 / 1000000 * (7 / 48) := by linarith
+    _ ≤ _ := by gcongr
+
+/-- **the law of the model's loop, quantitatively**: the model returns `y` with the discrete Gaussian probability up to
+the explicit `cksAbortBound τ σ²` — `dG(y) − B ≤ P[ret_y] ≤ dG(y)` -/
+theorem cks_loop_law_quantitative (scale : ℝ) (hscale : 0 < scale) (y : ℤ) :
+    let μ := Measure.infinitePi (fun _ : ℕ => unif01)
+    let run := fun (ω : ℕ → ℝ) (N fuel : ℕ) => cksLoop (cksTau scale) (cksSigma2 scale) fuel ((List.range N).map ω)
+    let ret := {ω : ℕ → ℝ | ∃ N fuel rest, run ω N fuel = some (y, rest)}
+    let dG := ENNReal.ofReal (Real.exp (-((y : ℝ) ^ 2 / (2 * cksSigma2 scale))))
+      / ∑' z : ℤ, ENNReal.ofReal (Real.exp (-((z : ℝ) ^ 2 / (2 * cksSigma2 scale))))
+    μ ret ≤ dG ∧ dG ≤ μ ret + ENNReal.ofReal (cksAbortBound (cksTau scale) (cksSigma2 scale)) := by
+  have h1 := cks_loop_law_full scale hscale y
+  have h2 := cks_abort_bound scale hscale
+  exact ⟨h1.1, h1.2.trans (add_le_add le_rfl h2)⟩
+
+/-! ### 13. Snapping's uniform: the dyadic double over fair bits is the round-down of a continuous uniform
+
+`Snapping._uniform_sampler` builds `mantissa·2^exponent` with `mantissa = 2^52 | getrandbits(52)` and `exponent = −53 −` (the
+number of leading zero bits of a stream of 32-bit words).  The random input of the model's `snapUniform bits52 words` is the
+bit string `(b, X)`: `b < 2^52` and `X < 2^(32W)`, the latter read as `W` words, most significant first (`SmpS.wordsOf W X`;
+`W` is the finite cap on the number of words the model is given).  `SmpS.fgrid k b = (2^52 + b)·2^(−53−k)` are the doubles
+of the binade `[2^−(k+1), 2^−k)`, `SmpS.ulpAt k = 2^(−53−k)` their spacing, and
+`SmpS.flDown U = ⌊U/ulp⌋·ulp`, `ulp = 2^(Int.log 2 U − 52)`, rounds `U > 0` down to a 53-bit significand. -/
+
+/-- **closed form of the model's `snapUniform` on a bit string**: it fails iff all `32W` word bits are zero, and otherwise
+returns the double with mantissa `2^52 + b` and exponent `−53 − k`, `k = 32W − bitlength(X)` the number of leading zeros -/
+theorem snap_uniform_closed_form (b W X : ℕ) (hX : X < 2 ^ (32 * W)) :
+    (snapUniform (α := ℝ) b (SmpS.wordsOf W X)).map Prod.fst
+      = if X = 0 then none else some (SmpS.fgrid (32 * W - (Nat.log2 X + 1)) (b % 2 ^ 52)) :=
+  SmpS.snapUniform_wordsOf b W X hX
+
+/-- non-vacuity: one word `0x80000000`, mantissa bits 0 — the model returns `2^52·2^−53 = 1/2` -/
+example : (snapUniform (α := ℝ) 0 [2 ^ 31]).map Prod.fst = some (1 / 2) := by
+  have h := snap_uniform_closed_form 0 1 (2 ^ 31) (by norm_num)
+  have hw : SmpS.wordsOf 1 (2 ^ 31) = [2 ^ 31] := by simp [SmpS.wordsOf]
+  have hl : Nat.log2 (2 ^ 31) = 31 := Nat.log2_two_pow
+  rw [hw, if_neg (by norm_num), hl] at h
+  rw [h]
+  simp only [SmpS.fgrid, SmpS.ulpAt]
+  norm_num
+
+/-- **`flDown` is "round down to the floating-point grid"**: for `U ∈ [2^−N, 1)` it returns a double `fgrid k b` of a binade
+`k < N` with `fgrid k b ≤ U < fgrid k b + ulp` -/
+theorem snap_round_down_grid (N : ℕ) (U : ℝ) (h1 : (2 : ℝ) ^ (-(N : ℤ)) ≤ U) (h2 : U < 1) :
+    ∃ k b, k < N ∧ b < 2 ^ 52 ∧ SmpS.flDown U = SmpS.fgrid k b ∧ SmpS.fgrid k b ≤ U ∧ U < SmpS.fgrid k b + SmpS.ulpAt k := by
+  obtain ⟨k, b, hk, hb, c1, c2⟩ := SmpS.cell_cover N U h1 h2
+  exact ⟨k, b, hk, hb, SmpS.flDown_cell k b hb U c1 c2, c1, c2⟩
+
+/-- non-vacuity: `1/2 ∈ [2^−1, 1)` -/
+example : (2 : ℝ) ^ (-((1 : ℕ) : ℤ)) ≤ 1 / 2 ∧ (1 / 2 : ℝ) < 1 := by
+  constructor
+  · rw [zpow_neg]; norm_num
+  · norm_num
+
+/-- **the law of the model's `snapUniform` over fair bits is the push-forward of the continuous uniform on [0,1) under
+round-down to the floating-point grid**, with the finite exponent cap explicit: under the uniform counting measure on the
+`2^(52+32W)` bit strings `(b, X)`,
+  * every real `v` is returned with probability `unif01 {U | 2^(−32W) ≤ U ∧ flDown U = v}` (`SmpS.hitSet W v` = the bit
+    strings on which the model returns `v`; both sides vanish unless `v` is a double of a binade `k < 32W`, and then both are
+    `2^(−53−k)`), and
+  * the model fails (`SmpS.missSet W`: all `32W` word bits zero) with probability `2^(−32W) = unif01 {U | U < 2^(−32W)}`. -/
+theorem snap_uniform_law (W : ℕ) :
+    (∀ v : ℝ, ((SmpS.hitSet W v).card : ENNReal) / 2 ^ (52 + 32 * W)
+        = unif01 {U : ℝ | (2 : ℝ) ^ (-((32 * W : ℕ) : ℤ)) ≤ U ∧ SmpS.flDown U = v}) ∧
+    ((SmpS.missSet W).card : ENNReal) / 2 ^ (52 + 32 * W) = unif01 {U : ℝ | U < (2 : ℝ) ^ (-((32 * W : ℕ) : ℤ))} :=
+  ⟨fun v => SmpS.snapUniform_point_law W v, SmpS.snapUniform_none_law W⟩
+
+/-- what `hitSet` is: the bit strings `(b, X)` in range on which the model returns `v` -/
+theorem snap_uniform_hitSet (W : ℕ) (v : ℝ) (b X : ℕ) :
+    (b, X) ∈ SmpS.hitSet W v ↔ b < 2 ^ 52 ∧ X < 2 ^ (32 * W) ∧
+      (snapUniform (α := ℝ) b (SmpS.wordsOf W X)).map Prod.fst = some v := by
+  rw [SmpS.mem_hitSet]
+  constructor
+  · rintro ⟨hb, hX, hX0, h⟩
+    refine ⟨hb, hX, ?_⟩
+    rw [snap_uniform_closed_form b W X hX, if_neg hX0, Nat.mod_eq_of_lt hb, h]
+  · rintro ⟨hb, hX, h⟩
+    rw [snap_uniform_closed_form b W X hX, Nat.mod_eq_of_lt hb] at h
+    by_cases hX0 : X = 0
+    · rw [if_pos hX0] at h; cases h
+    · rw [if_neg hX0] at h
+      exact ⟨hb, hX, hX0, (Option.some.inj h).symm⟩
 
 end DPL.C03
